@@ -1,4 +1,5 @@
 import Sourmash.Spec.SigFormat
+import Sourmash.Lemmas.Json
 /-! Property C06 — signatures survive save/load unchanged and stay format-compatible.
 Property theorems only; helper lemmas live in `Sourmash/Lemmas/Json*.lean`. -/
 namespace Sourmash.C06
@@ -55,5 +56,88 @@ theorem model_reads_published :
     [K.class_, K.email, K.hash_function, K.filename, K.name, K.license, K.signatures, K.version] = signatureFieldNames ∧
     [K.registers, K.p, K.q, K.ksize] = hllFieldNames ∧
     [Mol.dna, .protein, .dayhoff, .hp].map Mol.display = [Mol.dna, .protein, .dayhoff, .hp].map moleculeName := by decide
+
+/-! ### T-roundtrip — "writing any signature to JSON and loading it back yields a signature with identical
+name, filename, license and, for every sketch, identical parameters, hashes, abundances and md5" -/
+
+/-- T-roundtrip: for every list of signatures, each holding any number of vector-backed, tree-backed and
+    HyperLogLog sketches in a state the sketch operations can produce (`WFSignature`: hashes strictly
+    increasing with aligned abundances — C01 —, values within their Rust types, num *or* scaled, one of the
+    four hash functions), loading what was written succeeds and gives the signatures back up to
+    `normalise` … -/
+theorem roundtrip (sigs : List Signature) (h : ∀ s ∈ sigs, WFSignature s) :
+    fromJson (toJson sigs) = .ok (sigs.map Signature.normalise) := by
+  simp only [fromJson, toJson, fromJsonSigs_written sigs h]
+
+/-- … and `normalise` changes nothing but the container type of tree-backed sketches: class, email,
+    hash_function, filename, name, license, version are identical, there are as many sketches, and each has
+    identical parameters (num, ksize, seed, max_hash, molecule), hashes, abundances and md5 -/
+theorem normalise_only_container (s : Signature) :
+    s.normalise.name = s.name ∧ s.normalise.filename = s.filename ∧ s.normalise.license = s.license ∧
+    s.normalise.cls = s.cls ∧ s.normalise.email = s.email ∧ s.normalise.hashFunction = s.hashFunction ∧
+    s.normalise.version = s.version ∧ s.normalise.sketches.map content = s.sketches.map content := by
+  refine ⟨rfl, rfl, rfl, rfl, rfl, rfl, rfl, ?_⟩
+  simp only [Signature.normalise, List.map_map]
+  apply List.map_congr_left
+  intro sk _
+  cases sk <;> rfl
+
+/-- the single-signature form (`Signature::to_writer` writes `[sig]`) -/
+theorem roundtrip_one (s : Signature) (h : WFSignature s) : fromJson (toJson [s]) = .ok [s.normalise] :=
+  roundtrip [s] (by intro x hx; simp at hx; exact hx ▸ h)
+
+/-- the container type does change: a tree-backed sketch comes back vector-backed (untagged enum, first
+    variant wins) -/
+theorem roundtrip_tree_comes_back_vec (m : MinHash) (h : WFMinHash m) :
+    fromJsonSketch (toJsonSketch (.tree m)) = .ok (.vec m) :=
+  fromJsonSketch_written (.tree m) h
+
+/-- non-vacuity: a signature with a tree-backed sketch (hashes up to 2^64-1, abundances), a num sketch and a
+    HyperLogLog sketch satisfies the hypothesis -/
+def sampleSig : Signature :=
+  { cls := str "sourmash_signature", email := [], hashFunction := str "0.murmur64", filename := none,
+    name := some (str "a \"quoted\"\nname"), license := str "CC0", version := defaultVersionBits,
+    sketches := [
+      .tree { num := 0, ksize := 31, seed := 42, maxHash := 2^64 - 1, mins := [0, 7, 2^64 - 1],
+              abunds := some [1, 2^64 - 1, 3], md5 := str "d41d8", mol := .protein },
+      .vec { num := 500, ksize := 21, seed := 42, maxHash := 0, mins := [5, 6], abunds := none, md5 := [], mol := .dna },
+      .hll [0, 3, 0, 1] 2 62 21] }
+
+example : WFSignature sampleSig := by
+  intro sk hsk
+  simp only [sampleSig, List.mem_cons, List.not_mem_nil, or_false] at hsk
+  rcases hsk with rfl | rfl | rfl
+  · exact { num := by decide, ksize := by decide, seed := by decide, maxHash := by decide,
+            mins := by decide, abunds := (by intro a ha; cases ha; decide),
+            sorted := by decide, aligned := (by intro a ha; cases ha; rfl),
+            numOrScaled := by decide, mol := trivial }
+  · exact { num := by decide, ksize := by decide, seed := by decide, maxHash := by decide,
+            mins := by decide, abunds := (by intro a ha; cases ha),
+            sorted := by decide, aligned := (by intro a ha; cases ha),
+            numOrScaled := by decide, mol := trivial }
+  · exact ⟨by decide, by decide, by decide, by decide⟩
+
+/-! What the hypothesis of T-roundtrip excludes, stated positively (both are replayed on the real code by
+`corpus/C06/*.ops`): -/
+
+/-- a sketch created with both `num` and `scaled` non-zero loses its `num` on load -/
+theorem roundtrip_num_zeroed (m : MinHash) (hn : m.num < 2^32) (h : WFMinHash { m with num := 0 })
+    (hmax : m.maxHash ≠ 0) :
+    fromJsonSketch (toJsonSketch (.vec m)) = .ok (.vec { m with num := 0 }) := by
+  have hin : InRange m := { h.toInRange with num := hn }
+  have hrep : repair m = { m with num := 0 } := by
+    have := repair_wf h
+    cases m
+    simp_all [repair]
+  simp only [fromJsonSketch, toJsonSketch, fromJsonVec_written m hin h.mol, hrep]
+
+/-- a sketch with a `HashFunctions::Custom` hash function is written, but loading it back panics
+    (`unimplemented!()`), unless its name lower-cases to one of the four standard names -/
+theorem roundtrip_custom_panics (m : MinHash) (s : Str) (hm : m.mol = .custom s) (h : InRange m)
+    (hs : lower s ≠ K.protein ∧ lower s ≠ K.dayhoff ∧ lower s ≠ K.hp ∧ lower s ≠ K.dna) :
+    fromJsonSketch (toJsonSketch (.vec m)) = .error .panic := by
+  have hv : vecOfTemp (tempOf m) = .error .panic := by
+    simp [vecOfTemp, tempOf, hm, Mol.display, molOfString, hs.1, hs.2.1, hs.2.2.1, hs.2.2.2]
+  simp only [fromJsonSketch, toJsonSketch, fromJsonVec, parseTemp_toJsonMH m h, hv]
 
 end Sourmash.C06
